@@ -149,6 +149,15 @@ CLAIMS['C15'] = dict(
          'PipeWriter::PipeSignal is written, accepted by handleRead\'s validation and handled, and that both executors forward a worker finding only under hasToLog(msg).',
     design='3/C15', note='Equality of the reports under every interleaving and message contents that stress the length-prefixed framing are not decided.')
 
+CLAIMS['C24'] = dict(
+    technique='static analysis: writer/reader slot agreement of the suppression-state encoding, coverage of the members read by the parent-side consumers '
+              '(who-reads query over isSameParameters and the getUnmatched* functions), must-path analysis that every worker exit hands the state over',
+    text='Decides that the k-th part written by PipeWriter::suppressionToString is restored by ProcessExecutor::handleRead into the same member and the part counts agree; '
+         'that every Suppression member read by isSameParameters / getUnmatchedLocal/Global/InlineSuppressions is carried (explicit slot, toString()/parseLine(), signal kind) '
+         'or is in the reasoned VALUE_SAFE table (thisAndNextLine, type); that the forked worker calls writeSuppr before writeEnd, writeSuppr sends every inline and every '
+         'checked suppression, the reader adds-or-merges, updateSuppressionState merges both flags and the thread worker propagates state.',
+    design='3/C24', note='Which suppressions should count as unmatched (the matching semantics) is not decided; field values containing the separator are data-dependent and not decided.')
+
 NOT_APPLICABLE = {
     'C01': 'soundness of inferred values vs. concrete executions of arbitrary programs; needs an executing/symbolic oracle, no structural necessary condition in valueflow.cpp',
     'C02': 'same as C01, for container sizes',
